@@ -13,7 +13,8 @@ MANIFEST = dict(
          "(uncompressed annotation matrix, elder rule with ties for H0, signed boundary annotation, highest-key pivot, column update, "
          "Field_Zp arithmetic as verified under C10, both orders of endpoints()) pairs every simplex at most once (exactly once below "
          "dim_max when the minimal length discards nothing), birth before death, "
-         "dim(death)=dim(birth)+1, keeps every coordinate of the annotation matrix a cocycle of the current complex and every annotation "
+         "dim(death)=dim(birth)+1, satisfies Euler's formula, keeps every coordinate of the annotation matrix a cocycle of the current complex, the "
+         "live cocycles linearly independent (triangular against their creators) and every annotation "
          "supported on live classes of its own dimension with the killed pivot gone from every column (for Multi_field, and any coefficient "
          "structure, the order and dimension clause is proved as well); (iii) betti_numbers / "
          "persistent_betti_numbers / intervals_in_dimension are the stated functions of the multiset of pairs. "
